@@ -27,6 +27,8 @@ def pi8 (s : Stack) : Outgoing × List (Dest × (Bool × Nat)) := (s.outgoing, s
 @[simp] theorem pi8_with_flushLog (s : Stack) (x : List (Dest × List SDEntry)) : pi8 { s with flushLog := x } = pi8 s := rfl
 @[simp] theorem pi8_with_subLog (s : Stack) (x : List (Addr × Nat × List Eventgroup)) : pi8 { s with subLog := x } = pi8 s := rfl
 @[simp] theorem pi8_with_findLog (s : Stack) (x : List (Nat × Nat)) : pi8 { s with findLog := x } = pi8 s := rfl
+@[simp] theorem pi8_with_findMarks (s : Stack) (x : List (Nat × Nat)) : pi8 { s with findMarks := x } = pi8 s := rfl
+@[simp] theorem pi8_markFind (s : Stack) (n : Nat) : pi8 (s.markFind n) = pi8 s := rfl
 @[simp] theorem pi8_with_offLog (s : Stack) (x : List (Nat × OEv × Nat)) : pi8 { s with offLog := x } = pi8 s := rfl
 @[simp] theorem pi8_logOffer (s : Stack) (i : Nat) (e : OEv) : pi8 (s.logOffer i e) = pi8 s := rfl
 @[simp] theorem pi8_with_subDup (s : Stack) (x : Bool) : pi8 { s with subDup := x } = pi8 s := rfl
